@@ -167,6 +167,16 @@ CHECKS = {
               'Every stage of the chain, 13 failure classes, every stale '
               'name pattern; syscall counts in the evidence.',
               'DESIGN.md section 2 C19', _BASE_NOTE),
+    'C20': _e('exploration',
+              'canary monitor: cloud-safe mapping runs (successful and '
+              'failing on 12 invalid-input / worker-fault classes) executed '
+              'inside directories whose names carry unique tokens and '
+              'punctuation; every string of config / log in the JSON, the '
+              'HDF5 metadata and the log file scanned for the tokens and for '
+              'absolute path-like substrings that exist on the host',
+              'All recorded strings of every generated run scanned; counts '
+              'of strings and sanitised path lines in the evidence.',
+              'DESIGN.md section 2 C20', _BASE_NOTE),
 }
 
 PENDING_REASON = ('check not built yet in this session; the property is in '
